@@ -43,6 +43,7 @@ type HarnessCfg struct {
 	Twin        bool              `json:"twin"`            // vacuity twin: expected to be violated
 	Race        bool              `json:"race"`
 	Known       map[string]string `json:"known"` // known-finding id -> description
+	MonitorGlobals bool           `json:"monitor_globals"`
 }
 
 type HarnessFile struct {
@@ -373,11 +374,11 @@ func (h *HarnessRun) runPath(item workItem, sol *Solver, pathNo int64) (sibs []w
 				outcome, msg = pa.Kind, pa.Msg
 			}
 		}()
-		h.inInit = true
+		in.inInit = true
 		for _, f := range h.initFns {
 			in.runInit(f)
 		}
-		h.inInit = false
+		in.inInit = false
 		argv := &Backing{E: make([]Value, len(h.args))}
 		for i, a := range h.args {
 			argv.E[i] = IntV{in.tf.BV(64, uint64(int64(a)))}
@@ -407,7 +408,7 @@ func (h *HarnessRun) runPath(item workItem, sol *Solver, pathNo int64) (sibs []w
 		h.recordInconclusive("feasibility query unknown (both sides kept)")
 	}
 	// sample for native trace validation
-	if (outcome == OReturn || outcome == OExit) && h.sampleEvery > 0 && (pathNo+h.seed)%int64(h.sampleEvery) == 0 {
+	if (outcome == OReturn || outcome == OExit) && h.sampleEvery > 0 && (pathNo <= 8 || (pathNo+h.seed)%int64(h.sampleEvery) == 0) {
 		model := in.model
 		if model == nil {
 			if r, m := sol.Check(nil, in.vars); r == Sat {
